@@ -325,14 +325,14 @@ theorem q_sendSegment (e : Ep) (it : TxItem) (s : Nat) (ht : tmpTids e.txTmp = [
   · refine QStep.perm rfl rfl rfl rfl ?_ rfl rfl
     simp only [Ep.inflight, ht]; simp [tmpTids]
   · split
-    · refine QStep.perm (by simp [sendMessage, idleReset, kaReset]) (by simp [sendMessage, idleReset, kaReset])
-        (by simp [sendMessage, idleReset, kaReset]) (by simp [sendMessage, idleReset, kaReset]) ?_ rfl rfl
+    · refine QStep.perm (by simp [sendMessage, sendReady, idleReset, kaReset]) (by simp [sendMessage, sendReady, idleReset, kaReset])
+        (by simp [sendMessage, sendReady, idleReset, kaReset]) (by simp [sendMessage, sendReady, idleReset, kaReset]) ?_ rfl rfl
       rw [inflight_pqTrigger]
       simp only [Ep.inflight, ht]
-      simp only [sendMessage, idleReset, kaReset, tmpTids, List.nil_append]
+      simp only [sendMessage, sendReady, idleReset, kaReset, tmpTids, List.nil_append]
       exact List.Perm.append_left _ List.perm_append_comm
     · refine QStep.perm rfl rfl rfl rfl ?_ rfl rfl
-      simp only [Ep.inflight, ht]; simp [tmpTids, sendMessage, idleReset, kaReset]
+      simp only [Ep.inflight, ht]; simp [tmpTids, sendMessage, sendReady, idleReset, kaReset]
 
 theorem q_processQueue (e : Ep) : QStep e ((processQueue e).1, (processQueue e).2.1) := by
   unfold processQueue
@@ -363,7 +363,7 @@ theorem q_writeConn (e : Ep) (n : Nat) (up : Bool) : QStep e (writeConn e n up) 
     · exact QStep.id e
   · simp only []
     split
-    · exact q_doClose e
+    · exact QStep.id e
     · split
       · refine QStep.cons_then (q_checkSessTerm _) ?_
         exact QStep.refl_of_qv rfl rfl rfl
@@ -582,7 +582,9 @@ theorem q_step (e : Ep) (ev : Ev) (h1 : ev.isSend = false) (h2 : ev.isPop = fals
     simp only []
     split
     · exact QStep.id e
-    · exact q_pump e n
+    · split
+      · exact QStep.id e
+      · exact QStep.congr_right (r := pump { e with txIdle := false } n) rfl rfl (QStep.congr_left (e' := { e with txIdle := false }) rfl (q_pump _ n))
   | rx chunk =>
     simp only []
     split
